@@ -96,7 +96,13 @@ def one_shape(col, n, edges, rng, variants, sample=False):
             prios[rng.randrange(n)] = 0
             col.counters["cp_shapes_without_positive_priority"] += 1
     sp = mk_spec(n, edges, prios)
-    rp = {"kind": "cp_case", "n": n, "edges": edges, "prios": prios, "variants": variants, "source": S.render(sp)}
+    if n >= 3 and all(p > 0 for p in prios) and rng.random() < 0.2:
+        # a block of the nodes lives in an inner DAG: same table entries (prefixed ids), same unique order (the argument stubs of
+        # the inner DAG have priority 0, so with positive priorities a stub never ranks below the node it feeds)
+        a0 = rng.randrange(n)
+        sp["nest"] = {"name": "nin", "first": a0, "last": min(n - 1, a0 + rng.randint(0, 2)), "mc": 1}
+        col.counters["cp_shapes_with_a_block_written_as_inner_dag"] += 1
+    rp = {"kind": "cp_case", "n": n, "edges": edges, "prios": prios, "variants": variants, "source": S.render(sp), "nest": sp.get("nest")}
     d, _env, _plain = S.build_tawazi(sp)
     ids = S.node_ids(sp)
     g = S.site_graph(sp)
@@ -149,7 +155,7 @@ def one_shape(col, n, edges, rng, variants, sample=False):
             some = set(rng.sample(range(n), rng.randint(1, max(1, n - 1))))
             fresh = iter([10 ** k for k in range(n, 4 * n + 4)])  # values no node has had: no ties can arise
             zero = rng.choice(sorted(some)) if rng.random() < 0.3 else None
-            p2 = [(0 if i == zero else next(fresh) * rng.choice([1, 1, -1])) if i in some else prios[i] for i in range(n)]
+            p2 = [(0 if i == zero else next(fresh) * (1 if sp.get("nest") else rng.choice([1, 1, -1]))) if i in some else prios[i] for i in range(n)]
             conf = {"nodes": {ids[i]: {"priority": p2[i]} for i in sorted(some)}}
             d.config_from_dict(conf)
             col.counters["cp_partial_reconfigurations"] += 1
@@ -158,7 +164,7 @@ def one_shape(col, n, edges, rng, variants, sample=False):
                 conf2 = {"nodes": {ids[k]: {"is_sequential": False}}}
                 if rng.random() < 0.5:
                     j2 = rng.randrange(n)
-                    p2[j2] = next(fresh) * rng.choice([1, -1])
+                    p2[j2] = next(fresh) * (1 if sp.get("nest") else rng.choice([1, -1]))
                     conf2["nodes"].setdefault(ids[j2], {})["priority"] = p2[j2]
                 d.config_from_dict(conf2)
                 col.counters["cp_second_reconfigurations"] += 1
